@@ -12,7 +12,7 @@ from . import common as C
 
 PROP = "C12"
 PROPS_FILE = "theories/Props/C12.v"
-THEOREMS = ["c12_exact", "c12_all_outputs", "c12_history_independent", "c12_merge_sorted", "c12_merge_syms", "c12_merge_times"]
+THEOREMS = ["c12_exact", "c12_all_outputs", "c12_history_independent", "c12_merge_sorted", "c12_merge_syms", "c12_merge_times", "c12_presentation_independent"]
 GEN_FILES = []
 TRUSTED = ["Coq 8.16.1 kernel + vm_compute (no native_compute)",
            "theorems closed under the global context (Print Assumptions recorded below)",
